@@ -370,7 +370,7 @@ theorem post_feed (c : Cfg) (r : Run) (m : Msg) (hp : r.st.isPost = true) (hna :
   simp only [hnd, Bool.false_eq_true, if_false] at h' ⊢
   generalize clearPending (countRecord c r m) m = q at *
   have hqp : q.st.isPost = true := by rw [f1]; exact hp
-  rcases step_shape c r m with ⟨p, hs, hnh⟩ | ⟨hs, hh⟩ | ⟨a, hs⟩ | ⟨hs, _, _⟩
+  rcases step_shape c r m with ⟨p, hs, hnh⟩ | ⟨hs, hh⟩ | ⟨a, hs⟩ | ⟨hs, _, _, _⟩
   · refine ⟨fun hx => (by rw [hnh] at hx; cases hx), fun _ => ?_⟩
     rw [hs] at h' ⊢
     rcases stepK_plus c r.st r.outstanding m.kind p with e | e | ⟨e, _⟩
